@@ -143,7 +143,7 @@ type rec struct {
 }
 
 // TTLChoices are the TTL values the harness uses (index = bit in rec.refresh).
-var TTLChoices = [...]int64{0, 20e9, 60e9, 24 * 3600e9}
+var TTLChoices = [...]int64{0, 20e9, 60e9, 24 * 3600e9, 300e6}
 
 func ttlBit(ttl int64) uint32 {
 	for i, t := range TTLChoices {
